@@ -46,6 +46,7 @@ type LoopSpec struct {
 	ExitAny    bool     // map-range loop: which exiting iteration comes first is declared irrelevant
 	OrderReason string
 	Bags       []string // slice variables compared as multisets (sorted before use)
+	AtExit      []Clause // conditions that hold on every edge leaving the loop (checked there)
 	OrderAssume []Clause // facts about the iterated map assumed (not proved) by the order check; each is listed as an assumption
 }
 
@@ -439,7 +440,7 @@ func (sp *Specs) loadSpecFile(path, pkgPath string) error {
 				return fail(err)
 			}
 			curTable.Clauses = append(curTable.Clauses, c)
-		case "requires", "ensures", "trustedensures", "panics", "invariant", "modifies", "decreases":
+		case "requires", "ensures", "trustedensures", "panics", "invariant", "atexit", "modifies", "decreases":
 			if cur == nil {
 				return fail(fmt.Errorf("%s outside func", word))
 			}
@@ -489,6 +490,11 @@ func (sp *Specs) loadSpecFile(path, pkgPath string) error {
 					return fail(fmt.Errorf("invariant outside loop"))
 				}
 				curLoop.Invariants = append(curLoop.Invariants, c)
+			case "atexit":
+				if curLoop == nil {
+					return fail(fmt.Errorf("atexit outside loop"))
+				}
+				curLoop.AtExit = append(curLoop.AtExit, c)
 			}
 		case "params":
 			cur.ParamNames = strings.Fields(strings.ReplaceAll(rest, ",", " "))
